@@ -157,6 +157,7 @@ class Sim:
         r.sel = None if r.init else ref.select(sp, r.pre, h[3] if h else None, truth)
         P.truth = dict(truth)
         mark = len(P.log)
+        self.lastT = r.T        # whoever queues something while the step runs (a listener) does so at the step time
         try:
             r.ms = it.execute_once()
             r.exc = None
